@@ -128,6 +128,15 @@ type ErrV struct {
 	Msg   string
 }
 
+// CondErrV is an error whose nil-ness is symbolic: it is non-nil exactly when Cond holds.
+// It arises from merging the results of a pure callee; Mixed means the merged non-nil
+// outcomes had different roots (so the root must not be inspected).
+type CondErrV struct {
+	Cond  *smt.Term
+	E     ErrV
+	Mixed bool
+}
+
 // ModelV is a value implemented by an engine-side model (ORM tables, bank, context ...).
 type ModelV struct{ M Model }
 
